@@ -42,6 +42,14 @@ END
   Frame ::= SEQUENCE { id MY-CLASS.&id({MySet}), value MY-CLASS.&Type({MySet}{@id}) }
 END
 """,
+    "C18-duplicate-value-constant": """PB3 DEFINITIONS AUTOMATIC TAGS ::= BEGIN
+  OC ::= CLASS { &id INTEGER UNIQUE, &Type, &prio INTEGER OPTIONAL } WITH SYNTAX { IDENT &id KIND &Type [PRIO &prio] }
+  MySet OC ::= { { IDENT 5 KIND R1 PRIO 5 } | { IDENT 2 KIND R2 } }
+  R1 ::= INTEGER
+  R2 ::= BOOLEAN
+  Frame ::= SEQUENCE { id OC.&id({MySet}), value OC.&Type({MySet}{@id}) }
+END
+""",
 }
 
 
@@ -247,6 +255,8 @@ def finding_for(m, row=None):
     """which recorded compile-level defect explains that a row of the set as written is not selectable"""
     if m["idkind"] == "oid":
         return "C18-oid-identifier"
+    if row is not None and m.get("setstyle") == "mixed" and not any(row is r for r in comp_rows(m)):
+        return "C18-set-reference-drops-objects"
     if row is not None and any(len(g) == 1 and g[0] is row for g in m["groups"]):
         return "C18-lone-object-dropped"
     return None
@@ -273,26 +283,50 @@ def mutate(rng, hx):
     return bytes(b[:i] + bytes([rng.below(256)]) + b[i:]).hex()
 
 
-FIELD = ["&id", "&Type", "&Aux"]
-
-
 def wide_rep(m):
     """INTEGER_t cells and an INTEGER_t identifier member: -fwide-types and an INTEGER / ENUMERATED identifier"""
     return m["rep"] == "wide" and m["idkind"] in ("int", "enum")
 
 
+def value_cells(m):
+    """every INTEGER / ENUMERATED value the table holds: identifiers and the settings of fixed-type value fields"""
+    out = []
+    for r in comp_rows(m):
+        for fi, (k, v) in row_cells(m, r).items():
+            if k == "val" and (fi != m["ic"] or m["idkind"] in ("int", "enum")):
+                out.append(v)
+    return out
+
+
 def wide_refuses(m):
-    """asn1c_ioc.c:emit_ioc_value writes INTEGER_t cells for 0..32767 only (the Python reading of that rule; the model's is emit_table = None)"""
-    return wide_rep(m) and any(not (0 <= r["id"] <= 32767) for r in comp_rows(m))
+    """asn1c_ioc.c:emit_ioc_value writes INTEGER_t cells for 0..32767 only (the Python reading of that rule; the model's is emit_cell = None)"""
+    return m["rep"] == "wide" and any(not (0 <= v <= 32767) for v in value_cells(m))
+
+
+def expected_cell(m, fi, setting):
+    """what the object set as written puts into cell (row, fi): (kind, asn_DEF name, C type, value)"""
+    f = m["fields"][fi]
+    k, v = setting
+    if k == "type":
+        return ("aioc__type", v, None, None)
+    kind = m["idkind"] if f["kind"] == "id" else {"Crit": "enum", "INTEGER": "int"}[f["vtype"]]
+    if kind == "oid":
+        return ("aioc__value", "OBJECT_IDENTIFIER", "OBJECT_IDENTIFIER_t", ("octets", oid_contents(v)))
+    wide = m["rep"] == "wide"
+    d = ("INTEGER" if wide else "NativeInteger") if kind == "int" else ("Kind" if f["kind"] == "id" else "Crit")
+    return ("aioc__value", d, "INTEGER_t" if wide else "long", ("octets", int_octets(v)) if wide else ("long", v))
 
 
 def check_table(run, model, m):
-    """(C) the emitted table read back from the generated C == the object set as written (comp rows, Python's reading)
-    == the model's emitted table, cell by cell"""
-    kind, comp = m["idkind"], comp_rows(m)
-    Fc = frame_tokens(m, "wide" if wide_rep(m) else "comp")
-    mcells = mrun(model, ["c18cells " + Fc])[0]
-    replay = {"module": m["text"], "options": m["opts"], "model_cells": mcells[:600]}
+    """(C) the emitted table read back from the generated C: the MATRIX SHAPE (rows x columns = emitted cells, columns = the fields
+    of the class in class order), cell (r, c) = field c of object r of the set as written (Python's reading of the module it wrote),
+    an unset field = the empty cell; and the same matrix from the model (OpenTypeMatrix.emit_dense of compile_objs), cell by cell"""
+    kind, comp, fields = m["idkind"], comp_rows(m), m["fields"]
+    n = len(fields)
+    legacy = m.get("family") != "unset"        # (the frame model of OpenType.v needs objects that set the identifier and the members' types)
+    mmx = mrun(model, ["c18mx %s %d %s" % ("wide" if m["rep"] == "wide" else "native", n, eset_tokens(m))])[0]
+    mcells = mrun(model, ["c18cells " + frame_tokens(m, "wide" if wide_rep(m) else "comp")])[0] if legacy else ""
+    replay = {"module": m["text"], "options": m["opts"], "model_cells": mcells[:600], "model_matrix": mmx[:900]}
     try:
         tables, sels = parse_ioc_tables(os.path.join(m["dir"], "Frame.c"))
     except (OSError, KeyError, IndexError, ValueError) as e:
@@ -309,54 +343,74 @@ def check_table(run, model, m):
         return
     (tname, t), = tables.items()
     bad = []
-    if t["rows"] != len(comp) or t["cols"] != m["ncols"] + 1 or t["cells"] is None or t["ncells"] != t["ncells_text"]:
-        bad.append("shape: rows_count=%s columns_count=%s cells read=%s/%s, the set has %d objects x %d fields" %
-                   (t["rows"], t["cols"], t["ncells"], t["ncells_text"], len(comp), m["ncols"] + 1))
-    # the selectors: one per open-type member, on this table, constrained by column 0, for the member's column
+    if t["rows"] != len(comp) or t["cols"] != n or t["ncells"] != len(comp) * n or t["ncells"] != t["ncells_text"] or t["cells"] is None:
+        bad.append("matrix shape: the header says rows_count=%s columns_count=%s, %s cells are emitted (%s initializers in the text); the set has %d objects x %d class fields = %d cells" %
+                   (t["rows"], t["cols"], t["ncells"], t["ncells_text"], len(comp), n, len(comp) * n))
+    # the selectors: one per open-type member, on this table, constrained by the identifier column, for the member's column
     for j, mem in enumerate(m["members"]):
-        want = (tname, 0, 1 + m["mcols"][j])
+        want = (tname, m["ic"], m["tcols"][m["mcols"][j]])
         if (sels.get("Frame_" + mem) or ())[:3] != want:
             bad.append("selector of member %s uses %s, expected %s" % (mem, sels.get("Frame_" + mem), want))
     if bad:
-        run.violation("oracle:table_as_written", dict(replay, what="; ".join(bad)))
+        run.violation("oracle:table_as_written", dict(replay, what="; ".join(bad),
+                                                      input="any frame whose identifier belongs to a row at or after the first object that leaves a field unset"))
         return
+    # the model's matrix: <rows> <cols> <cell>*
+    mt = mmx.split()
+    if mmx == "REFUSED" or len(mt) != 2 + len(comp) * n or mt[0] != str(len(comp)) or mt[1] != str(n):
+        run.violation("correspondence:OpenTypeMatrix.emit_dense", dict(replay, what="the model's matrix is %s, the C table has %d x %d cells" % (mmx[:80], len(comp), n)), no_input=True)
+        return
+    # the legacy reading of the identifier column (OpenTypeCell.emit_table, what the frame decoders of the model use)
     mtoks = mcells.split()
-    if len(mtoks) != len(comp):
+    if legacy and len(mtoks) != len(comp):
         run.violation("correspondence:OpenTypeCell.emit_table", dict(replay, what="the model's table has %d rows, the C table %d" % (len(mtoks), len(comp))), no_input=True)
         return
-    want_def = {"int": "INTEGER" if wide_rep(m) else "NativeInteger", "enum": "Kind", "oid": "OBJECT_IDENTIFIER"}[kind]   # (the cell's type by name)
-    want_ctype = "INTEGER_t" if wide_rep(m) else {"int": "long", "enum": "long", "oid": "OBJECT_IDENTIFIER_t"}[kind]
-    for i, (row, cells, mt) in enumerate(zip(comp, t["cells"], mtoks)):
-        c0 = cells[0]
-        run.count("table_cell_%s" % ("octets" if wide_rep(m) else kind))
-        where = "row %d (identifier %s)" % (i + 1, id_text(kind, row["id"]))
-        if c0["field"] != "&id" or c0["kind"] != "aioc__value" or c0["def"] != want_def or c0["ctype"] != want_ctype:
-            run.violation("oracle:table_as_written", dict(replay, what="%s: identifier cell is %s, expected field &id, aioc__value, asn_DEF_%s, %s" %
-                                                          (where, {k: c0[k] for k in ("field", "kind", "def", "ctype")}, want_def, want_ctype)))
-            continue
-        v = c0["value"]
-        # the model's cell, as a value of the same shape
-        mv = ("long", int(mt[1:-1])) if mt.startswith("I") else ("octets", bytes.fromhex(mt[1:-1]))
-        if v != mv:
-            run.violation("correspondence:OpenTypeCell.emit_table", dict(replay, what="%s: the emitted cell is %r, the model's emit_table gives %r" % (where, v, mv), c=str(v)),
-                          no_input=True)
-        # the object set as written
-        if kind == "oid":
-            if v != ("octets", oid_contents(row["id"])):
-                run.known_finding("C18-oid-identifier", where)
-            continue
-        want = ("octets", int_octets(row["id"])) if wide_rep(m) else ("long", row["id"])
-        if v != want:
-            denotes = int.from_bytes(v[1], "big", signed=True) if v[0] == "octets" and v[1] else None
-            run.violation("oracle:table_as_written", dict(replay, what="%s: the emitted identifier cell is %r%s, the object set says %r" %
-                                                          (where, v, " (denotes %d)" % denotes if denotes is not None else "", want),
-                                                          input="identifier %d: a frame with it is refused; identifier %s is accepted in its place" % (row["id"], denotes)))
-        # type cells, by name
-        for c in range(m["ncols"]):
-            tc = cells[1 + c]
-            if (tc["field"], tc["kind"], tc["def"]) != (FIELD[1 + c], "aioc__type", row["types"][c]):
-                run.violation("oracle:table_as_written", dict(replay, what="%s: type cell %d is %s, the object set says %s %s" %
-                                                              (where, c + 1, (tc["field"], tc["kind"], tc["def"]), FIELD[1 + c], row["types"][c])))
+    for i, (row, cells) in enumerate(zip(comp, t["cells"])):
+        settings = row_cells(m, row)
+        idtxt = id_text(kind, row["id"]) if row.get("id") is not None else "(unset)"
+        for c, cell in enumerate(cells):
+            f = fields[c]
+            where = "row %d (identifier %s), column %d (%s)" % (i + 1, idtxt, c, f["name"])
+            mtok = mt[2 + i * n + c]
+            if cell["field"] != f["name"]:
+                run.violation("oracle:table_as_written", dict(replay, what="%s: the cell is labelled %r: the cells are not in class order (the matrix is shifted)" % (where, cell["field"])))
+                continue
+            if c not in settings:
+                run.count("table_cell_unset")
+                if cell["kind"] is not None:
+                    run.violation("oracle:table_as_written", dict(replay, what="%s: the object leaves the field unset, the cell holds %s" % (where, (cell["kind"], cell["def"]))))
+                if mtok != "-":
+                    run.violation("correspondence:OpenTypeMatrix.emit_dense", dict(replay, what="%s: empty in the C table, %s in the model's" % (where, mtok)), no_input=True)
+                continue
+            ekind, edef, ectype, evalue = expected_cell(m, c, settings[c])
+            run.count("table_cell_%s" % (("octets" if m["rep"] == "wide" else (kind if f["kind"] == "id" else "value")) if ekind == "aioc__value" else "type"))
+            if (cell["kind"], cell["def"], cell["ctype"]) != (ekind, edef, ectype):
+                run.violation("oracle:table_as_written", dict(replay, what="%s: the cell is %s, the object set says %s" %
+                                                              (where, (cell["kind"], cell["def"], cell["ctype"]), (ekind, edef, ectype))))
+                continue
+            if ekind == "aioc__type":
+                if mtok != "T:" + edef:
+                    run.violation("correspondence:OpenTypeMatrix.emit_dense", dict(replay, what="%s: type cell %s in the C table, %s in the model's" % (where, edef, mtok)), no_input=True)
+                continue
+            v = cell["value"]
+            mv = ("long", int(mtok[1:-1])) if mtok.startswith("I") else ("octets", bytes.fromhex(mtok[1:-1])) if mtok.startswith("O") else ("bad", mtok)
+            if v != mv:
+                run.violation("correspondence:OpenTypeMatrix.emit_dense", dict(replay, what="%s: the emitted cell is %r, the model's matrix has %r" % (where, v, mv), c=str(v)), no_input=True)
+            if f["kind"] == "id" and legacy:
+                lt = mtoks[i]
+                lv = ("long", int(lt[1:-1])) if lt.startswith("I") else ("octets", bytes.fromhex(lt[1:-1]))
+                if v != lv:
+                    run.violation("correspondence:OpenTypeCell.emit_table", dict(replay, what="%s: the emitted cell is %r, the model's emit_table gives %r" % (where, v, lv), c=str(v)),
+                                  no_input=True)
+                if kind == "oid":
+                    if v != evalue:
+                        run.known_finding("C18-oid-identifier", where)
+                    continue
+            if v != evalue:
+                denotes = int.from_bytes(v[1], "big", signed=True) if v[0] == "octets" and v[1] else None
+                run.violation("oracle:table_as_written", dict(replay, what="%s: the emitted cell is %r%s, the object set says %r" %
+                                                              (where, v, " (denotes %d)" % denotes if denotes is not None else "", evalue),
+                                                              input="identifier %s: a frame with it is refused; identifier %s is accepted in its place" % (idtxt, denotes)))
 
 
 def check_module(run, rng, model, m, tier, depth):
@@ -409,11 +463,36 @@ def check_module(run, rng, model, m, tier, depth):
             mlc.append("c18sel %s %s" % (Fc, id_val_str(kind, idv)))
             mls.append("c18sel %s %s" % (Fs, id_val_str(kind, idv)))
     mo_c, mo_s = mrun(model, mlc), mrun(model, mls)
+    # the same probes on the matrix model: the generated selector of every member on the flat array (class of any shape)
+    es, nf, rp = eset_tokens(m), len(m["fields"]), ("wide" if m["rep"] == "wide" else "native")
+    mlm = ["c18msel %s %d %d %d %s %s" % (rp, nf, m["ic"], m["tcols"][mc], es, id_val_str(kind, idv))
+           for idv, row, orc in probe if not isinstance(idv, bytes) for mc in m["mcols"]]
+    mo_m = iter(mrun(model, mlm))
     co, crashes = crun(run, m, lines, "sel")
     selectable = set()
     for (idv, row, orc), l, o, pc, ps in zip(probe, lines, co, mo_c, mo_s):
+        if not isinstance(idv, bytes):
+            mx = " ".join(next(mo_m) for _ in m["mcols"])
+            cx = " ".join("0" if x.startswith("0:") else "%s:T:%s" % tuple(x.split(":")[:2]) for x in o.split()) if ":" in o else o
+            if mx != cx:
+                run.violation("correspondence:OpenTypeMatrix.select_flat", {"module": m["text"], "options": m["opts"], "identifier": id_text(kind, idv), "command_line": l, "c": o,
+                                                                             "model_matrix_selector": mx, "what": "generated selector differs from select_flat on the model's dense matrix"},
+                              no_input=True)
+            if orc and intlike and o != "CRASH":
+                # oracle, evaluated on the C output alone against Python's own reading of the module it wrote:
+                # the first object of the set with this identifier, its types in the members' columns
+                pyrow = next((r for r in spec if r["id"] == idv), None)
+                got = [x.split(":")[1] for x in o.split()] if ":" in o and not o.startswith("0:") else None
+                want_py = mtypes(m, pyrow) if pyrow is not None else None
+                if got != want_py and not (pyrow is not None and finding_for(m, pyrow)):
+                    run.violation("oracle:select_paired", {"module": m["text"], "options": m["opts"], "identifier": id_text(kind, idv), "command_line": l, "c": o,
+                                                           "what": "the selector returns %s, the object set as written pairs the identifier with %s" % (got, want_py)})
         run.case(fs + " " + l)
         run.count("sel_" + ("nonminimal" if not orc else "row" if row else "norow"))
+        if o == "CRASH":
+            run.violation("crash:selector", {"module": m["text"], "options": m["opts"], "identifier": id_text(kind, idv) if not isinstance(idv, bytes) else idv.hex(), "command_line": l,
+                                             "what": "the generated selector crashed (walk beyond the table, or an empty cell dereferenced)", "stderr_tail": crashes.get(probe.index((idv, row, orc)), "")[-2500:]})
+            continue
         f = [x.split(":") for x in o.split()] if ":" in o else []
         ok_shape = len(f) == nmem and all(len(x) == 3 for x in f) and len(set(x[0] for x in f)) == 1
         replay = {"module": m["text"], "options": m["opts"], "identifier": id_text(kind, idv) if not isinstance(idv, bytes) else "(contents octets %s)" % (idv.hex() or "empty"),
@@ -617,12 +696,18 @@ def check_module(run, rng, model, m, tier, depth):
         # the bytes happen to be an encoding of the selected row's type: the C must decode them as that type
         f = mf.split()
         reenc.append("c18der %s %s" % (Fc, " ".join(f[2:])))
-        reenc_meta.append((replay, int(f[1]), o))
-    for (replay, n, o), d in zip(reenc_meta, mrun(model, reenc)):
+        reenc_meta.append((replay, int(f[1]), o, x, l))
+    for (replay, n, o, x, l), d in zip(reenc_meta, mrun(model, reenc)):
         run.count("mismatch_decodes_as_selected")
         if not o.startswith("OK %d %s " % (n, d)):
-            run.violation("correspondence:OpenType.dec_frame", dict(replay, what="bytes valid for the selected row's type: C result differs from the model's", model_der=d),
-                          no_input=True)
+            # the shared reference decoder does not look at constraints (INTEGER -5 under a row of type INTEGER (0..4294967295): the C's
+            # unsigned long member holds 251): what C18 states is that the bytes are read as exactly the selected row's type, so the C's
+            # standalone decoder of that very type is asked about the same inner bytes (below); without an OK there it is a violation
+            if o.startswith("OK %d " % n):
+                second.append((x, l, o, replay))
+            else:
+                run.violation("correspondence:OpenType.dec_frame", dict(replay, what="bytes valid for the selected row's type: C result differs from the model's", model_der=d),
+                              no_input=True)
     if second:
         ml, cl = [], []
         for x, l, o, replay in second:
@@ -734,6 +819,93 @@ def check_module(run, rng, model, m, tier, depth):
             run.violation("oracle:mutation", {"module": m["text"], "options": m["opts"], "what": "unexpected driver output on a mutated encoding", "command_line": l, "c": o})
 
 
+UNSET_TYPE_SIG = re.compile(r"OPEN_TYPE_(ber|uper|xer|oer)_get")
+UNSET_ID_SIG = re.compile(r"(SEGV|null pointer)(.*\n){0,10}?.*select_Frame_\w+_type")
+
+
+def check_unset(run, rng, model, m, tier):
+    """objects that leave the open-type member's type field, or the identifier field, unset (OPTIONAL class fields).
+    The table must be the dense matrix with empty cells; the generated selector must be select_flat on it (an empty identifier
+    cell = stuck = the C dies inside the selector); the oracle: an identifier whose object has a type decodes as that type and is
+    returned byte for byte, an identifier whose object has no type (or no object) fails cleanly.  Where the unchanged tree
+    does not do that, the model names the cause: SelRow with an empty type cell, a presence index that is not the row's
+    alternative (c18alts), or a stuck selector: the recorded defects C18-unset-type-cell / C18-unset-identifier-cell."""
+    kind, spec, fields = m["idkind"], m["rows"], m["fields"]
+    fs, nf, es = m["fs"], len(fields), eset_tokens(m)
+    rp = "wide" if m["rep"] == "wide" else "native"
+    check_table(run, model, m)
+    fc = m["tcols"][0]
+    used = [r["id"] for r in spec if r["id"] is not None]
+    unknown = [x for x in WIDE_IDS if x not in used][:2]
+    probes = [(r["id"], r) for r in spec if r["id"] is not None] + [(u, None) for u in unknown]
+    msel = mrun(model, ["c18msel %s %d %d %d %s %s" % (rp, nf, m["ic"], fc, es, id_val_str(kind, i)) for i, _ in probes])
+    alts = mrun(model, ["c18alts %d %s" % (fc, es)])[0].split()
+    lines = ["sel Frame %s" % id_universal_der(kind, i).hex() for i, _ in probes]
+    co, crashes = crun(run, m, lines, "sel-unset")
+    stuck = set()
+    for k, ((idv, row), l, o, ms) in enumerate(zip(probes, lines, co, msel)):
+        run.case(fs + " " + l)
+        run.count("sel_unset_" + ("row" if row else "norow"))
+        replay = {"module": m["text"], "options": m["opts"], "identifier": id_text(kind, idv), "command_line": l, "c": o, "model_matrix_selector": ms}
+        if o == "CRASH":
+            if ms == "STUCK" and UNSET_ID_SIG.search(crashes.get(k, "")):
+                run.known_finding("C18-unset-identifier-cell", l)
+                stuck.add(idv)
+            else:
+                run.violation("crash:selector", dict(replay, what="the generated selector crashed", stderr_tail=crashes.get(k, "")[-2500:]))
+            continue
+        f = o.split(":")
+        cx = "0" if o.startswith("0:") else "%s:%s" % (f[0], "-" if f[1] == "-" else "T:" + f[1]) if len(f) == 3 else o
+        if cx != ms:
+            run.violation("correspondence:OpenTypeMatrix.select_flat", dict(replay, what="generated selector differs from select_flat on the model's dense matrix"), no_input=True)
+            continue
+        # oracle (Python's reading): the first object with this identifier and its type
+        want = "0" if row is None else "%d:%s" % (spec.index(row) + 1, "T:" + row["types"][0] if row["types"][0] else "-")
+        if cx != want:
+            run.violation("oracle:select_paired", dict(replay, what="the selector returns %s, the object set as written says %s" % (cx, want)))
+    # frames: AUTOMATIC TAGS: id [0] IMPLICIT, value [1] EXPLICIT <inner TLV>
+    cases = []
+    for idv, row in probes:
+        for src in ([row] if row is not None and row["types"][0] else [r for r in spec if r["types"][0]][:1]):
+            tn = src["types"][0]
+            for _ in range(2 if tier == "quick" else 5):
+                cases.append({"id": idv, "row": row, "tn": tn, "v": value(m["trees"][tn], rng)})
+    inner = mrun(model, ["der %s %s" % (model_str(m["trees"][c["tn"]]), val_str(c["v"])) for c in cases])
+    cases = [dict(c, inner=h) for c, h in zip(cases, inner) if h != "NONE"]
+    for c in cases:
+        ib = int_octets(c["id"])
+        body = bytes([0x80 if kind == "int" else 0x80]) + der_len(len(ib)) + ib + b"\xa1" + der_len(len(c["inner"]) // 2) + bytes.fromhex(c["inner"])
+        c["der"] = (b"\x30" + der_len(len(body)) + body).hex()
+    seen = set()
+    cases = [c for c in cases if not (c["der"] in seen or seen.add(c["der"]))]
+    lines = ["dec Frame ber " + c["der"] for c in cases]
+    co, crashes = crun(run, m, lines, "dec-unset")
+    for k, (c, l, o) in enumerate(zip(cases, lines, co)):
+        row = c["row"]
+        run.case(fs + " " + l)
+        has_type = row is not None and row["types"][0] is not None
+        run.count("frame_unset_" + ("valid" if has_type else "notype" if row is not None else "norow"))
+        replay = {"module": m["text"], "options": m["opts"], "identifier": id_text(kind, c["id"]), "value_of": c["tn"], "command_line": l, "c": o,
+                  "stderr_tail": crashes.get(k, "")[-2500:] if o == "CRASH" else None}
+        good = o.startswith("OK %d %s ck=" % (len(c["der"]) // 2, c["der"])) if has_type else o.startswith(("FAIL", "MORE"))
+        if good:
+            run.count("frame_unset_as_stated")
+            continue
+        # the causes the model knows
+        if c["id"] in stuck and o == "CRASH" and UNSET_ID_SIG.search(crashes.get(k, "")):
+            run.known_finding("C18-unset-identifier-cell", l)
+        elif row is not None and not has_type and o == "CRASH" and UNSET_TYPE_SIG.search(crashes.get(k, "")):
+            run.known_finding("C18-unset-type-cell", l)              # SelRow r None: the NULL type descriptor is used
+        elif has_type and (spec.index(row) >= len(alts) or alts[spec.index(row)] != "T:" + row["types"][0]):
+            # presence_index = row + 1 is not the row's alternative: the value is stored under another row's alternative
+            # (or beyond the member array): refused, garbled, or a crash wherever the confused structure is used next
+            run.known_finding("C18-unset-type-cell", l)
+        else:
+            run.violation("crash:unset-field" if o == "CRASH" else "oracle:opentype_roundtrip(unset field)",
+                          dict(replay, what="a frame of a set with unset OPTIONAL fields: %s" %
+                               ("valid frame not returned byte for byte" if has_type else "identifier without a type (or without an object) not refused cleanly")))
+
+
 # option sets that change the representation of the object-set table, of the identifier member or of the open-type holder
 # (name, options, which modules: all | simple = the modules whose row types cannot clash without -fcompound-names)
 FLAGSETS = {
@@ -775,6 +947,31 @@ def corpus(rng, tier):
     mods += [(g.module("MO%d" % i, idkind="oid", untagged=False), "cn") for i in range(1 if q else 4)]
     mods += [(g.module("ML0", lone=True, nrows=1, untagged=False), "cn")]
     mods += [(g.module("ML%d" % i, lone=True, untagged=False, idpool=WIDE_IDS if i % 2 == 0 else None), "cn") for i in range(1, 2 if q else 5)]
+    # ---- classes of any shape (round 3): directed shapes first, every subset of the optional fields, then random
+    directed = [("one", "incomplete-first", "cn"), ("one", "complete-first", "wide"), ("first", "alternate", "cn"), ("typefirst", None, "wide"),
+                ("two", None, "cn"), ("nested", "incomplete-first", "cn"), ("joint", "alternate", "wide"), ("auxopt", None, "cn")]
+    for i, (d, o, prim) in enumerate(directed):
+        mods.append((shape_module(g, "MC%d" % i, directed=d, presence="every", rowsorder=o, idpool=WIDE_IDS if prim == "wide" or i % 2 else None,
+                                  ncols=1 if q and i % 3 else None, setstyle="objrefs" if i == 5 else "plain"), prim))
+    for i in range(2 if q else 16):
+        mods.append((shape_module(g, "MD%d" % i, presence=rng.choice(["random", "random", "every"]), rowsorder=rng.choice([None, "incomplete-first", "alternate"]),
+                                  idpool=WIDE_IDS if i % 2 else None, idkind="enum" if i % 4 == 1 else "int", bigvals=(i % 4 == 2),
+                                  untagged=(i % 8 == 6)), "wide" if i % 4 == 3 else "cn"))
+    # sets made of other sets, and of other sets next to objects (the objects are lost: C18-set-reference-drops-objects)
+    # (the rows of a referenced set are CLONED into the referencing one, asn1p_class.c:asn1p_ioc_row_clone: optional fields before
+    #  mandatory ones, every subset of them inside the referenced sets)
+    styles = ["refs", "refsext", "mixed"] if q else ["refs", "refsext", "mixed", "mixed", "refs", "mixed", "refsext", "refs"]
+    shapes = ["first", "two", "typefirst", None, "one", "nested", "joint", None]
+    for i, st in enumerate(styles):
+        mods.append((shape_module(g, "MR%d" % i, setstyle=st, presence="every" if i % 4 != 3 else "random", nrows=rng.choice([6, 7, 8]), idpool=WIDE_IDS,
+                                  rowsorder=rng.choice([None, "alternate", "incomplete-first"]), directed=shapes[(i + (0 if q else rng.below(3))) % len(shapes)]),
+                     "cn" if i % 2 == 0 else "wide"))
+    # an OPTIONAL type field the member uses / an OPTIONAL identifier field, unset by some object (recorded defects, judged by check_unset)
+    for i in range(2 if q else 6):
+        mq = shape_module(g, "MQ%d" % i, ncols=1, presence="every", rowsorder=rng.choice([None, "alternate", "complete-first"]), nrows=rng.choice([4, 5, 6]),
+                          idpool=[x for x in WIDE_IDS if x < 128], **({"optional_types": (0,), "directed": rng.choice(["one", "two", None])} if i % 2 == 0 else {"idopt": True}))
+        mq["family"] = "unset"
+        mods.append((mq, "cn"))
     if not q:
         # many rows (presence index beyond one octet)
         mods.append((g.module("MX0", ids=[7 * i for i in range(300)], ncols=1, simple=True, untagged=False), "wide"))
@@ -838,12 +1035,21 @@ def main(tier):
             run.count("members_%d%s" % (len(m["mcols"]), "_samecol" if len(set(m["mcols"])) < len(m["mcols"]) else ""))
             run.count("set_" + ("extensible" if m["ext"] else "closed"))
             run.count("idfield_" + ("%s_%d..%d" % ((m["idkind"],) + m["idcon"]) if m["idcon"] else m["idkind"]))
+            if m["fs"] == "cn":
+                run.count("class_fields_%d" % len(m["fields"]))
+                run.count("class_idcolumn_%d" % m["ic"])
+                run.count("class_shape_" + m["shape"])
+                run.count("set_style_" + m["setstyle"])
+                run.count("objects_incomplete_%s" % ("0" if not m.get("incomplete") else "1" if m["incomplete"] == 1 else "2+"))
+                for f in m["fields"]:
+                    if f["kind"] != "id":
+                        run.count("class_field_%s_%s" % (f["kind"], (f["opt"] or "mandatory").lower()))
             run.case("%s build %s" % (m["fs"], m["name"]))
             replay = {"module": m["text"], "options": m["opts"], "asn1c_rc": m.get("asn1c_rc"), "asn1c_out": m.get("asn1c_out", "")[-1500:],
                       "build_log": m.get("build_log", "")[-1500:]}
-            if wide_rep(m):
-                # the model's emitter and the compiler must refuse the same sets (identifiers outside 0..32767), the compiler with a diagnostic
-                mref = mrun(model, ["c18cells " + frame_tokens(m, "wide")])[0] == "REFUSED"
+            if m["rep"] == "wide" and (wide_rep(m) or m["shape"] != "legacy"):
+                # the model's emitter and the compiler must refuse the same sets (a value cell outside 0..32767), the compiler with a diagnostic
+                mref = mrun(model, ["c18mx wide %d %s" % (len(m["fields"]), eset_tokens(m))])[0] == "REFUSED"
                 if mref != wide_refuses(m):
                     run.violation("model:OpenTypeCell.emit_table", dict(replay, what="the model's INTEGER_t emitter and the rule 0..32767 disagree"), no_input=True)
                 if mref:
@@ -857,6 +1063,10 @@ def main(tier):
             if m.get("asn1c_rc") == 70 and "-fcompound-names" not in m["opts"] and 'Use "-fcompound-names" flag' in m.get("asn1c_out", ""):
                 run.count("skipped_name_clash_without_compound_names")       # a clean refusal with advice; the same module is checked under the other sets
                 continue
+            if m.get("asn1c_rc") == 70 and m["ic"] >= len(comp_rows(m)) and re.search(r"Can not find referenced object class \S+ column &id", m.get("asn1c_out", "")):
+                # the emitter looks for the identifier column among the first <rows> class fields only
+                run.known_finding("C18-identifier-column-beyond-rows", m["name"])
+                continue
             if not m.get("exe"):
                 run.violation("build:module", dict(replay, what="asn1c rejected a generated class/object-set module or its output does not compile"))
                 continue
@@ -867,6 +1077,12 @@ def main(tier):
                     run.known_finding("C18-identifier-representation-mismatch", m["name"])
                 else:
                     run.violation("correspondence:OpenType.select", dict(replay, what="identifier member and cells have different C representations and the selector answers", c=outs[:6]))
+                continue
+            if m.get("family") == "unset":
+                if m["primary"]:
+                    check_unset(run, rng, model, m, tier)
+                else:
+                    check_table(run, model, m)
                 continue
             check_module(run, rng, model, m, tier, "full" if m["primary"] else "light")
     tb = ["Coq 8.16.1 kernel; vm_compute for refuted witnesses and Examples",
